@@ -609,7 +609,7 @@ func runOracle(c *ctx) {
 
 func runUpDown(c *ctx) {
 	c.w.Rule = "a case is non-trivial when the real differ reports a non-empty change list; distinct by that list"
-	n := 1200
+	n := 500
 	if c.thorough {
 		n = 8000
 	}
